@@ -22,8 +22,8 @@ manifest = {
     "version": 1,
     "setup_cmd": "cd /verif/harness && CARGO_NET_OFFLINE=true cargo build --release --offline --bins",
     "hooks": {
-        "guard": "cargo feature `verif` of the ord crate (off by default)",
-        "enable": "the harness depends on ord by path with features = [\"verif\"] (harness/Cargo.toml); every ./check rebuilds it from /repo's working tree",
+        "guard": "cargo feature `verif` of the ord crate and of the mockcore crate (both off by default)",
+        "enable": "the harness depends on ord by path with features = [\"verif\"], and on mockcore likewise (harness/Cargo.toml); every ./check rebuilds it from /repo's working tree",
         "baseline_off_cmd": "cd /repo && cargo test --workspace --no-fail-fast --offline",
         "source_commits": HOOK_COMMITS,
         "add_only": True,
